@@ -140,7 +140,13 @@ fn check(c: &Case) -> Result<&'static str, (String, String)> {
   let result = match util::catch(|| builder.build_transaction()) {
     Ok(r) => r,
     Err(p) => {
-      let site = if p.contains("invariant") { p.split(':').nth(1).unwrap_or("").trim().replace(' ', "-") } else { "other".into() };
+      let site = if p.contains("invariant") {
+        p.split(':').nth(1).unwrap_or("").trim().replace(' ', "-")
+      } else if p.contains("Option::unwrap()") {
+        "option-unwrap-none".into()
+      } else {
+        "other".into()
+      };
       let tk = match c.target {
         Tgt::Postage => "postage",
         Tgt::Exact(_) => "exact-postage",
